@@ -14,6 +14,24 @@ pub mod prelude {
     pub use pvmc::run::{DE, DU};
     pub use pvmc::userrel::{lasto, neqo, pairo, same, zipo};
 
+    /// Goal-valued Rust functions used as *expression* clauses (`crate::prelude::eq_int(x.clone(), 5)`)
+    /// and from inside `fngoal` bodies.
+    pub fn eq_int(t: LTerm<DU, DE>, k: isize) -> Goal<DU, DE> {
+        let kt: LTerm<DU, DE> = LTerm::from(k);
+        proto_vulcan!(t == kt)
+    }
+
+    pub fn unify_int(state: proto_vulcan::state::State<DU, DE>, t: &LTerm<DU, DE>, k: isize) -> proto_vulcan::stream::Stream<DU, DE> {
+        match state.unify(t, &LTerm::from(k)) {
+            Ok(s) => proto_vulcan::stream::Stream::unit(Box::new(s)),
+            Err(_) => proto_vulcan::stream::Stream::empty(),
+        }
+    }
+
+    pub fn prelude_fail() -> Goal<DU, DE> {
+        Goal::fail()
+    }
+
     /// Runs a goal built with `proto_vulcan!` the way `proto_vulcan_query!` would.
     pub fn run_goal(qvars: Vec<LTerm<DU, DE>>, goal: Goal<DU, DE>, max: usize) -> Vec<Vec<LResult<DU, DE>>> {
         let (vars, g) = pvmc::conv::wrap_query::<DU, DE>(qvars, goal);
@@ -71,7 +89,7 @@ fn main() {
     let family = format!("{}-surface", id.to_lowercase());
     let rule = match id {
         "C13" => "E5: match / matche / matcha / matchu expressions generated as surface syntax and compiled with the current macros: every pattern of the pattern alphabet (wildcard, names, repeated names, literals, [], proper/improper list patterns, tuple-struct / named-struct / nested compound patterns, a name equal to an outer variable) x 10 matched terms x 5 bodies as single arms, and two/three-arm expressions with alternatives under all four operators; compared with the reference expansion (disjunction over arms x alternatives of t == p under arm-local fresh names, then the body; committed choice for matcha / matchu).",
-        "C14" => "E5: the clause grammar as surface syntax compiled with the current macros: every literal kind in argument / list item / improper tail / nested position, `_`, nested proper and improper lists, tuple-struct and tuple constructors on both sides of == and != and as relation arguments in tree-term, {expr} and lterm! forms; conjunctions, conde with bare and bracketed arms, fresh, closure (nested), onceo / conda / condu / dfs operator calls, loop{} prefixes under take, library and user relation calls, for over a Vec and over an LTerm list, project; proto_vulcan_query! with 1-3 query variables reported per variable in declaration order; compared with the reference interpreter on the same AST.",
+        "C14" => "E5: the clause grammar as surface syntax compiled with the current macros: every literal kind in argument / list item / improper tail / nested position, `_`, nested proper and improper lists, tuple-struct and tuple constructors on both sides of == and != and as relation arguments in tree-term, {expr} and lterm! forms; conjunctions, conde with bare and bracketed arms, fresh, closure (nested), `fngoal` (plain and `move`, capturing a variable) and goal-valued Rust expressions (path call, block) in place of true / false / `x == n` in a quarter of the programs, onceo / conda / condu / dfs operator calls, loop{} prefixes under take, library and user relation calls, for over a Vec and over an LTerm list, project; proto_vulcan_query! with 1-3 query variables reported per variable in declaration order; compared with the reference interpreter on the same AST.",
         _ => "E5: programs with shadowing (nested fresh clauses reusing a name, a fresh clause shadowing a query variable's name), the same names in sibling scopes, fresh clauses inside conde arms and closures, pattern arms binding the names of an enclosing fresh clause, and recursive relations (zipo, lasto) whose every unfolding introduces variables of the same names — each compiled as written and alpha-renamed (every binder unique): both must have the answers of the lexically scoped reference interpreter.",
     };
     ctx.set("rule", json!(rule));
